@@ -32,7 +32,8 @@ RULE = (
     "with consumer requests on / between / across several publications and exactly at the step position, for "
     "NextTime, PreviousTime, LinearTime and StepTime(step in {0,1/4,1/2,1,1/8,3/4,1/3,2/3,1/10,3/10}), scalar and "
     "small gridded payloads, plus a malformed stream (requests before the first / after the last publication, "
-    "pulls before any publication); 40% of the gridded payloads are masked arrays whose missing cells change from "
+    "pulls before any publication); every 9th case has a push-driven consumer (CallbackInput pulling the announced time "
+    "inside each notification; those pulls are part of the request sequence); 40% of the gridded payloads are masked arrays whose missing cells change from "
     "publication to publication (FLEX info; most of them under a memory limit); a third of the value series contain plateaus (identical publications in a row) or drift (consecutive publications "
     "that agree within 1e-5 relative / 1e-8 absolute but differ) with the source running ahead of the consumer; data shapes "
     "incl. grids with a degenerate axis (2x2x1, 1x1, 1, 1x2x1); a quarter of the gridded consumers describe the grid "
@@ -215,7 +216,18 @@ def _shape_witness(kind, step, shape, flip=None):
             "ops": ops}
 
 
+def _notified_witness(kind, step):
+    """push-driven consumer directly behind the adapter: it pulls the announced time inside every notification and
+    must get the definition's value for the publication time (seeded C11_q)"""
+    return {"kind": kind, "step": step, "shape": [], "exact": False, "mem": None, "units": "m", "series": None, "flip": None,
+            "notified": True,
+            "ops": [["push", 0, [1.5]], ["pull", 0], ["push", 8, [-2.0]], ["push", 11, [4.25]], ["pull", 11], ["pull", 12],
+                    ["push", 30, [0.5]]]}
+
+
 CORPUS = [
+    _notified_witness("next", None), _notified_witness("prev", None), _notified_witness("linear", None),
+    _notified_witness("step", [1, 2]),
     _drift_witness("next", None, False), _drift_witness("linear", None, True), _drift_witness("prev", None, True),
     _drift_witness("step", [1, 2], False),
     _shape_witness("linear", None, [2, 2, 1]), _shape_witness("next", None, [1, 1]), _shape_witness("step", [1, 4], [1]),
@@ -272,11 +284,39 @@ CORPUS = [
 ]
 
 
+def request_ops(case):
+    """the request sequence the adapter sees: a push-driven consumer (CallbackInput that pulls the announced time
+    while it is being notified, like finam's DebugPushConsumer) pulls at every publication time, inside the
+    notification, i.e. right after the publication entered the adapter"""
+    if not case.get("notified"):
+        return case["ops"]
+    ops = []
+    for op in case["ops"]:
+        ops.append(op)
+        if op[0] == "push":
+            ops.append(["pull", op[1]])
+    return ops
+
+
+def make_notified(case, keep_latest=True):
+    """turn a case into one with a push-driven consumer; scripted in-range pulls older than the latest publication
+    would be decreasing requests (outside the domain) and are dropped"""
+    ops, pubs = [], []
+    for op in case["ops"]:
+        if op[0] == "push":
+            pubs.append(op[1])
+        elif pubs and pubs[0] <= op[1] <= pubs[-1] and not (keep_latest and op[1] == pubs[-1]):
+            continue
+        ops.append(op)
+    return dict(case, notified=True, ops=ops)
+
+
 def generate(rng, tier):
     n = 1200 if tier == "quick" else 72000
     cases = list(CORPUS)
     for i in range(n):
-        cases.append(_gen_case(rng, malformed=(i % 6 == 5), kind=KINDS[i % 4]))
+        c = _gen_case(rng, malformed=(i % 6 == 5), kind=KINDS[i % 4])
+        cases.append(make_notified(c) if i % 9 == 4 else c)
     return cases
 
 
@@ -354,7 +394,8 @@ def _run_link(case, ghost):
     grid = make_grid(shape)
     n = int(np.prod(shape)) if shape else 1
     out = fm.Output(name="Out")
-    inp = fm.Input(name="In")
+    pulls = []
+    inp = fm.CallbackInput(lambda caller, time: pull_once(time), name="In") if case.get("notified") else fm.Input(name="In")
     ada = make_adapter(case)
     set_memory(ada, case, n)
     out >> ada >> inp
@@ -363,8 +404,23 @@ def _run_link(case, ghost):
     cgrid = consumer_grid(shape, case.get("flip")) if case.get("flip") else grid
     out.push_info(fm.Info(time=t0, grid=grid, units=units))
     inp.exchange_info(fm.Info(time=t0, grid=cgrid, units=units))
-    pulls = []
     has_masks = any(op[0] == "push" and len(op) > 3 for op in case["ops"])
+
+    def pull_once(time):
+        try:
+            d = inp.pull_data(time)
+            m = magnitude(d)
+            if has_masks:
+                bits = [int(b) for b in to_source_cells(np.ma.getmaskarray(m), grid, cgrid, shape)]
+                raw = to_source_cells(np.asarray(np.ma.getdata(m), dtype=float), grid, cgrid, shape)
+                # what sits under a missing cell is not part of the result
+                pulls.append(["ok", [0.0 if b else float(x) for x, b in zip(raw, bits)], bits])
+                return
+            vals = [float(x) for x in to_source_cells(np.asarray(m, dtype=float), grid, cgrid, shape)]
+            pulls.append(["ok", vals])
+        except Exception as e:  # noqa
+            pulls.append([err_class(e)])
+
     try:
         for op in case["ops"]:
             if op[0] == "push":
@@ -372,21 +428,9 @@ def _run_link(case, ghost):
                 data = np.array(vs, dtype=float).reshape(shape) if shape else float(vs[0])
                 if len(op) > 3:
                     data = np.ma.masked_array(data, mask=np.array(op[3], dtype=bool).reshape(shape))
-                out.push_data(data, T(op[1]))
+                out.push_data(data, T(op[1]))     # a push-driven consumer pulls inside this call
             else:
-                try:
-                    d = inp.pull_data(T(op[1]))
-                    m = magnitude(d)
-                    if has_masks:
-                        bits = [int(b) for b in to_source_cells(np.ma.getmaskarray(m), grid, cgrid, shape)]
-                        raw = to_source_cells(np.asarray(np.ma.getdata(m), dtype=float), grid, cgrid, shape)
-                        # what sits under a missing cell is not part of the result
-                        pulls.append(["ok", [0.0 if b else float(x) for x, b in zip(raw, bits)], bits])
-                        continue
-                    vals = [float(x) for x in to_source_cells(np.asarray(m, dtype=float), grid, cgrid, shape)]
-                    pulls.append(["ok", vals])
-                except Exception as e:  # noqa
-                    pulls.append([err_class(e)])
+                pull_once(T(op[1]))
     finally:
         end_of_link(ada)
     return {"n": n, "pulls": pulls}
@@ -437,7 +481,7 @@ def _kind_term(case):
 
 def coq_case(case, obs):
     ops = []
-    for op in case["ops"]:
+    for op in request_ops(case):
         if op[0] == "push":
             if len(op) > 3:
                 ops.append(C("VPushM", Z(op[1]), L(Qf(v) for v in op[2]), L(B(b) for b in op[3])))
@@ -511,7 +555,7 @@ def _walk(case, obs):
     n = obs["n"]
     fails = []
     stats = {"ok": 0, "between": 0, "intervals": set(), "pubs": 0}
-    for op in case["ops"]:
+    for op in request_ops(case):
         if op[0] == "push":
             if times and op[1] <= times[-1]:
                 return fails, stats  # outside the domain from here on
@@ -587,7 +631,7 @@ def distribution(cases, obss):
     nops = Counter(min(len(c["ops"]) // 10 * 10, 40) for c in cases)
     mems = Counter(str(c.get("mem")) for c in cases)
     units = Counter(c.get("units", "m") or "dimensionless" for c in cases)
-    extra = {"value_series": dict(Counter(str(c.get("series")) for c in cases)),
+    extra = {"push_driven_consumer": sum(1 for c in cases if c.get("notified")), "value_series": dict(Counter(str(c.get("series")) for c in cases)),
              "consumer_grid_layout_differs": sum(1 for c in cases if c.get("flip") and any(c["flip"]))}
     return {**extra, "kinds": dict(kinds), "step_positions": dict(steps), "payload_shapes": dict(shapes), "memory_limit": dict(mems),
             "masked_payload_cases": sum(1 for c in cases if any(o[0] == "push" and len(o) > 3 for o in c["ops"])), "payload_units": dict(units),
